@@ -40,6 +40,9 @@ type VP8DescCase struct {
 	TKByte          uint8
 	Payload         HexBytes `json:"payload"`
 	Cut             int      `json:"cut"` // >=0: decode only the first Cut bytes of descriptor+payload; -1: whole
+	// Zero: the receiver runs in zero-allocation mode (documented as a reduced feature set): a well-formed packet
+	// must still be accepted and the bytes after the descriptor returned; the fields are not compared
+	Zero bool `json:"zero,omitempty"`
 }
 
 var (
@@ -211,10 +214,14 @@ func checkC11Desc(r *run, c *VP8DescCase) (CaseInfo, error) {
 	if len(in) == 0 {
 		arg = []byte{}
 	}
+	if c.Zero {
+		vp.SetZeroAllocation(true)
+		ci.class("zero-allocation-mode")
+	}
 	payload, err := vp.Unmarshal(arg)
 	if len(in) < len(db) {
 		ci.class("truncated-descriptor")
-		if err == nil {
+		if err == nil && !c.Zero {
 			return ci, failf("descriptor %s cut to %d bytes (%s) is accepted", hx(db), len(in), hx(in))
 		}
 
@@ -232,6 +239,9 @@ func checkC11Desc(r *run, c *VP8DescCase) (CaseInfo, error) {
 	}
 	if !bytes.Equal(payload, in[len(db):]) || !bytes.Equal(vp.Payload, in[len(db):]) {
 		return ci, failf("descriptor %s: returned payload %s, want %s", hx(db), hx(payload), hx(in[len(db):]))
+	}
+	if c.Zero {
+		return ci, nil
 	}
 	want, _ := vp8desc.Parse(in)
 	got := fmt.Sprintf("X%d N%d S%d PID%d I%d L%d T%d K%d pic%d tl0%d tid%d y%d key%d", vp.X, vp.N, vp.S, vp.PID, vp.I, vp.L, vp.T, vp.K, vp.PictureID, vp.TL0PICIDX, vp.TID, vp.Y, vp.KEYIDX)
@@ -293,7 +303,8 @@ func genVP8PayCase(t *rapid.T) *VP8PayCase {
 
 func genVP8DescCase(t *rapid.T) *VP8DescCase {
 	c := &VP8DescCase{
-		X: rapid.IntRange(0, 3).Draw(t, "x") != 0, N: genBool(t, "n"), S: genBool(t, "s"), R1: genBool(t, "r1"), R2: genBool(t, "r2"),
+		Zero: rapid.IntRange(0, 7).Draw(t, "zero") == 0,
+		X:    rapid.IntRange(0, 3).Draw(t, "x") != 0, N: genBool(t, "n"), S: genBool(t, "s"), R1: genBool(t, "r1"), R2: genBool(t, "r2"),
 		PID: uint8(rapid.IntRange(0, 7).Draw(t, "pidx")),
 		I:   genBool(t, "i"), L: genBool(t, "l"), T: genBool(t, "t"), K: genBool(t, "k"),
 		RSV: uint8(rapid.IntRange(0, 15).Draw(t, "rsv")), M: genBool(t, "m"),
@@ -313,7 +324,7 @@ func genVP8DescCase(t *rapid.T) *VP8DescCase {
 	return c
 }
 
-const ruleC11 = "payloader: picture ids on/off (one case in six flips the public EnablePictureID field between calls: the id stays the running frame counter), running id advanced to {0,1,2,5,125-129,32765-32769} by fast-forwarding 1-byte frames, 1-4 frames of 1-3000 bytes (one case in 60: a frame of 65530-200000 bytes) biased to k*(MTU-descriptor)+-1, MTU > descriptor size biased to +1..+3; every packet is decoded by VP8Packet (a fresh one per packet, or one for the whole stream) and by an independent RFC 7741 parser: payload concatenation = frame, S/IsPartitionHead first only, PID 0, <= MTU, id present in every packet (7-bit form < 128, 15-bit from 128), +1 per frame mod 2^15. descriptor: all X/I/L/T/K/M combinations with arbitrary field values and reserved bits from the reference builder, payload 0-40 bytes, truncations at every prefix 0-7; VP8Packet (receiver preloaded with other values) must read exactly the reference parse and reject cut descriptors; thorough adds all 2^16 first-two-octet combinations. Non-trivial = frame split into >=2 packets with ids on, id in {0,127,128,32767}, descriptor with >=2 optional fields or a truncation; distinct = FNV-64 of the JSON case"
+const ruleC11 = "payloader: picture ids on/off (one case in six flips the public EnablePictureID field between calls: the id stays the running frame counter), running id advanced to {0,1,2,5,125-129,32765-32769} by fast-forwarding 1-byte frames, 1-4 frames of 1-3000 bytes (one case in 60: a frame of 65530-200000 bytes) biased to k*(MTU-descriptor)+-1, MTU > descriptor size biased to +1..+3; every packet is decoded by VP8Packet (a fresh one per packet, or one for the whole stream) and by an independent RFC 7741 parser: payload concatenation = frame, S/IsPartitionHead first only, PID 0, <= MTU, id present in every packet (7-bit form < 128, 15-bit from 128), +1 per frame mod 2^15. descriptor: all X/I/L/T/K/M combinations with arbitrary field values and reserved bits from the reference builder, payload 0-40 bytes, truncations at every prefix 0-7; VP8Packet (receiver preloaded with other values) must read exactly the reference parse and reject cut descriptors (one case in eight runs in zero-allocation mode, where only acceptance and the returned bytes are checked); thorough adds all 2^16 first-two-octet combinations. Non-trivial = frame split into >=2 packets with ids on, id in {0,127,128,32767}, descriptor with >=2 optional fields or a truncation; distinct = FNV-64 of the JSON case"
 
 func TestC11(t *testing.T) {
 	r := begin(t, "C11", "exploration", ruleC11)
